@@ -190,7 +190,7 @@ def cases(draw):
     tree = dict(draw(specgen.trees(features=FEATURES)))
     tree.pop("_excluded", None)
     k = 10 if specgen._TIER[0] == "thorough" else 4
-    return {"tree": tree, "firsts": draw(st.lists(st.integers(0, 10 ** 6), min_size=k, max_size=k))}
+    return {"tree": tree, "firsts": draw(st.lists(st.integers(0, 10 ** 6), min_size=k, max_size=k, unique=True))}
 
 
 def run_task(task):
